@@ -50,6 +50,7 @@ def gen(rng, cls, nmax=3, **kw):
     cfg = solvedrive.gen_solve_config(rng, cls, nmax=nmax, allow_periodic=True)
     cfg["L"], cfg["T"], cfg["K"] = (enc(rng.choice(SCALES)) for _ in range(3))
     cfg["mu"] = enc(rng.choice([Fr(-1), Fr(2), Fr(1, 2)]))
+    cfg["dec"] = [rng.randint(-6, 6) for _ in range(3)]          # decades for L, T, K
     other = opsdrive.gen_config(rng, cls, nmax=nmax)       # only to draw a second set of coefficient fields
     # second coefficient fields on the SAME mesh
     dims = opsdrive.dims_of(cfg)
@@ -77,6 +78,31 @@ def combo(cfg, key1, key2, lam, mu):
     return comb(cfg[key1], cfg[key2])
 
 
+def raw_outputs(cfg):
+    """float outputs (no lifting) of the builders, as flat arrays, for the decade clause"""
+    import contextlib, io, warnings
+    P, np = drive.pf(), drive.np()
+    out = {}
+    with opsdrive.surrogate_trig(cfg["aunit"] == "sur"), warnings.catch_warnings(), np.errstate(all="ignore"), \
+            contextlib.redirect_stdout(io.StringIO()):
+        warnings.simplefilter("ignore")
+        c = opsdrive.build(cfg)
+        out["Mdiff"] = P.diffusionTerm(c.D).toarray()
+        out["Mconv"] = P.convectionTerm(c.u).toarray()
+        out["Mup"] = P.convectionUpwindTerm(c.u, c.uup).toarray()
+        out["Msrc"] = P.linearSourceTerm(P.CellVariable(c.m, opsdrive.to_float_array(cfg["beta"]))).toarray()
+        out["Rsrc"] = np.asarray(P.constantSourceTerm(P.CellVariable(c.m, opsdrive.to_float_array(cfg["gamma"]))))
+        Mbc, Rbc = P.boundaryConditionsTerm(c.bc)
+        out["Rbc"] = np.asarray(Rbc)
+        from pyfvtool.boundary import cellValuesWithBoundaries
+        out["ghost"] = np.asarray(cellValuesWithBoundaries(opsdrive.interior(c.phi_full), c.bc))
+        out["volume"] = np.asarray(c.m.cellvolume, dtype=float)
+        out["divu"] = np.asarray(P.divergenceTerm(c.u))
+        phi = P.CellVariable(c.m, c.phi_full.copy())
+        out["tvd"] = np.asarray(P.convectionTVDupwindRHSTerm(c.u, phi, P.fluxLimiter("SUPERBEE"), c.uup))
+    return out
+
+
 def observe(cfg, want):
     L, T, K = dec(cfg["L"]), dec(cfg["T"]), dec(cfg["K"])
     obs = opsdrive.observe(cfg, BASE_OUT)
@@ -89,6 +115,35 @@ def observe(cfg, want):
     else:
         obs["r_solve"] = s1["r_solve"]
         obs["S"]["r_solve"] = s2["r_solve"]
+    # +-6 decades: entries of the rescaled outputs over the original ones must be exact powers of ten
+    import math
+    np = drive.np()
+    kL, kT, kK = cfg["dec"]
+    big = scale_config(cfg, Fr(10) ** kL, Fr(10) ** kT, Fr(10) ** kK)
+    raw1 = raw_outputs(cfg)
+    raw2 = raw_outputs(big)
+    decades = {}
+    for name in raw1:
+        a, b = raw1[name], raw2[name]
+        exps = set()
+        ok = a.shape == b.shape
+        if ok:
+            # entries that are pure rounding residue of a cancellation (relative to the largest entry) count as zero
+            a = np.where(np.abs(a) <= 1e-12 * max(np.abs(a).max(), 1e-300), 0.0, a)
+            b = np.where(np.abs(b) <= 1e-12 * max(np.abs(b).max(), 1e-300), 0.0, b)
+            nz = (a != 0) | (b != 0)
+            for x, y in zip(a[nz].ravel(), b[nz].ravel()):
+                if x == 0 or y == 0 or not np.isfinite(x) or not np.isfinite(y) or (x > 0) != (y > 0):
+                    exps.add(9999)
+                    continue
+                e = round(math.log10(y / x))
+                if abs((y / x) / 10.0 ** e - 1.0) > 1e-9:
+                    e = 9999
+                exps.add(e)
+        else:
+            exps.add(9999)
+        decades[name] = sorted(exps)
+    obs["decades"] = decades
     # linearity in the coefficient fields
     lam, mu = dec(cfg["lam"]), dec(cfg["mu"])
     c2 = dict(cfg, D=cfg["D2"], u=cfg["u2"], beta=cfg["beta2"])
